@@ -300,6 +300,10 @@ def read_run(ops, outs):
                 evs.append(e)
             parked = None
             continue
+        if f[0] == "finish2" and o.startswith("unparked ") and any(t.startswith("adv=") for t in f[5:]):
+            # the clock moved on between the two records and the checks (the completions waited for the lock): the event model
+            # of this monitor has one instant per completion; nothing from here on is judged, it is left to the diff
+            break
         if f[0] == "finish2" and o.startswith("unparked ") and len(f) >= 5:
             # both responses were recorded (no breaker lock needed), then the parked request was decided (it held the lock and its
             # decision cannot move the state here), then the two checkAndSet ran: one evaluation over both records
@@ -1030,8 +1034,11 @@ def park_retrip(rng):
             import itertools
             pairs = list(itertools.combinations(held, 2))
             rng.shuffle(pairs)
+            # half of the time the clock moves on while the two completions wait for the lock (a check that trips then counts
+            # the fallback period from the instant it holds the lock, not from the instant the response ended)
+            late = (" adv=%d" % rng.choice([fb // 2, fb * 6 // 10, fb + 1, cp + 1])) if rng.random() < 0.5 else ""
             for j1, j2 in pairs[:12]:
-                b.lines.append("finish2 %s %d %s %d" % (j1, rng.choice([200, 200, 502, 504]), j2, rng.choice([502, 504, 200])))
+                b.lines.append("finish2 %s %d %s %d%s" % (j1, rng.choice([200, 200, 502, 504]), j2, rng.choice([502, 504, 200]), late))
         for j in held:
             b.finish(j, rng.choice([502, 504, 502, 504, 200]))   # the first due failure re-trips
         t = b.now
